@@ -53,7 +53,9 @@ def keyclass(st):
     """Coarse, maintainer-recognisable class of a raw column (used in finding keys)."""
     if st is None:
         return "all-NaN column"
-    if st["const"]:
+    if st["const"] or st["tstd"] <= 8.0 * EPS * st["mag"]:
+        # exactly constant, or constant up to noise in the last bits (after one store/unscale cycle the library itself
+        # cannot tell the two apart, so a finding on either is the same mechanism)
         return "constant column"
     if st["nan"]:
         return "column with NaN entries"
